@@ -422,6 +422,8 @@ def runCsLine (r : Report) (sec : Nat) (cfg : CsCfg) (l : Line) : Report :=
           | none => r
         | _ => r
       let r := if !cfg.strict then r.addCover "cs-nonstrict" else r
+      let r := if cfg.tol = 0 then r.addCover (if m0.ran then "cs-zero-tolerance-same-second-accepted" else "cs-zero-tolerance-rejected")
+               else if cfg.tol < 0 then r.addCover (if m0.ran ∧ cfg.strict ∧ gated then "cs-negative-tolerance-ACCEPTED" else "cs-negative-tolerance-nothing-passes") else r
       let r := compareResp r sec l.idx m0 m1 obs
       let r := match csMonitor env cfg req obs with
         | some msg => r.violation sec l.idx s!"{msg} [{showResp obs}]"
@@ -536,7 +538,8 @@ def parseRouteOption (t : String) : Option RouteOption :=
   else if t = "sigl" then some (.withSignature false true)
   else if t = "sign" then some (.withSignature false false)
   else if t = "sigs" then some (.withSignature true false)
-  else if t = "sig2" ∨ t = "sigb" ∨ t = "sigx" ∨ t = "sigd" then some (.withSignature true true)
+  else if t = "sig2" ∨ t = "sigb" ∨ t = "sigx" ∨ t = "sigd" ∨ t = "sigt" ∨ t = "sigm" then some (.withSignature true true)
+  else if t = "jwtte" then some (.withJwtTransition true)
   else if t = "pfx" ∨ t = "prio" ∨ t = "mb" ∨ t = "to" then some .other
   else none
 
@@ -545,7 +548,8 @@ def parseGroup (g : String) : Option (List RouteOption) :=
 
 /-- the `PrivateKeys` a signature option token configures (fingerprint, key file), `none` = not a signature option -/
 def optionKeys (t : String) : Option (List KeyConf) :=
-  if t = "sig" ∨ t = "sigl" then some [("good", "k1")]
+  if t = "sig" ∨ t = "sigl" ∨ t = "sigt" then some [("good", "k1")]
+  else if t = "sigm" then some [("good", "missing")]
   else if t = "sig2" then some [("alt", "k2")]
   else if t = "sigb" then some [("good", "k1"), ("alt", "k2")]
   else if t = "sigx" then some [("good", "k2")]
@@ -558,8 +562,14 @@ def groupKeys (g : String) : List KeyConf :=
   if g = "-" then [] else ((g.splitOn "+").filterMap optionKeys).getLast?.getD []
 
 /-- the key file the group's OWN decrypters hold for a fingerprint (`loadDecrypters` with every file loadable) -/
+def keyLoader (file : String) : Option String := if file = "missing" then none else some file
+
 def ownKeyFile (keys : List KeyConf) (fp : String) : Option String :=
-  (loadDecrypters (fun file => some file) keys).bind fun m => decrypterOf m fp
+  (loadDecrypters keyLoader keys).bind fun m => decrypterOf m fp
+
+/-- the tolerance in force for a group, seconds: the last signature option's -/
+def groupTolShort (g : String) : Bool :=
+  ((g.splitOn "+").filter fun t => (optionKeys t).isSome).getLast? = some "sigt"
 
 def parseMw (s : String) : Option MwConf :=
   match s.toList.map (fun ch => decide (ch = '1')) with
@@ -605,8 +615,14 @@ def runRestLine (r : Report) (sec : Nat) (cfg : RestCfg) (st : RestSt) (l : Line
   match l.op with
   | ["bind"] =>
     -- bindRoutes stops at the first group whose verifier cannot be built
-    let firstBad := (cfg.groups.map fun g => (bindRoute cfg.custom cfg.mw (applyOptions g) cfg.uses).isNone).findIdx? (· = true)
-    let model := match firstBad with | some _ => "err=signature-config" | none => "ok"
+    let verdicts := (List.range cfg.groups.length).map fun i =>
+      verifierFor keyLoader (applyOptions (cfg.groups.getD i [])) (cfg.keys.getD i [])
+    let firstBad := (verdicts.map fun v => match v with | .ok _ => false | .error _ => true).findIdx? (· = true)
+    let model := match firstBad.bind (verdicts[·]?) with
+      | some (.error .signatureConfig) => "err=signature-config"
+      | some (.error .keyFile) => "err=other"
+      | _ => "ok"
+    let r := if model = "err=other" then r.addCover "rest-bind-error-key-file-cannot-be-loaded" else r
     let r := { r with ops := r.ops + 1 }
     let r := r.addCover (if firstBad.isSome then "rest-bind-error-strict-signature-without-keys" else "rest-bind-ok")
     let r := r.addCover s!"rest-chain-{chainName}"
@@ -686,6 +702,9 @@ def runRestLine (r : Report) (sec : Nat) (cfg : RestCfg) (st : RestSt) (l : Line
             else r
           let r := if ownHas ∧ own.length > 1 then r.addCover (if (own.map (·.1)).eraseDups.length < own.length then "rest-repeated-fingerprint-later-file-wins" else "rest-group-with-two-keys") else r
           let r := if ((cfg.keys.filter (fun k => !k.isEmpty)).eraseDups.length > 1) then r.addCover "rest-server-with-different-keys-per-group" else r
+          let r := if kvStr a "cs" = "stale-short" ∨ kvStr a "cs" = "future-short" then
+              r.addCover (if covered then "rest-short-stale-accepted-by-long-tolerance-group" else "rest-short-stale-rejected")
+            else r
           -- cover
           let r := r.addCover s!"rest-tok-{kvStr a "tok"}"
           let r := r.addCover s!"rest-cs-{kvStr a "cs"}"
